@@ -98,7 +98,21 @@ def check_pack_exclusion(ctx, rule="R1.8"):
     bad_defaults = [k for k, d in defaults.items() if not (isinstance(d, ast.Constant) and d.value in (None, False))]
     params = func_params(pk)[1:]
     reassigned = [n for n in walk_no_nested(pk) if isinstance(n, ast.Assign) and any(isinstance(t, ast.Name) and t.id in params for t in n.targets)]
-    globals_read = sorted({n.id for n in ast.walk(pk) if isinstance(n, ast.Name) and n.id.isupper() and prog.resolve_global(base, n.id) is not None})
+    def _is_configuration(name) -> bool:
+        """A module-level data name that is not a true constant: it does not fold to an immutable value, or some function rebinds it
+        through a `global` declaration."""
+        r = prog.resolve_global(base, name)
+        if r is None or isinstance(r, (DefRef, Ref)) or not isinstance(r, tuple):
+            return False
+        rebound = any(isinstance(g, ast.Global) and name in g.names for g in ast.walk(base.tree))
+        try:
+            v = prog.fold(base, ast.Name(id=name, ctx=ast.Load()))
+        except NotConst:
+            return True
+        return rebound or not isinstance(v, (str, int, float, bool, bytes, type(None), tuple, frozenset))
+
+    locals_ = {n.id for n in ast.walk(pk) if isinstance(n, ast.Name) and isinstance(n.ctx, ast.Store)} | set(func_params(pk))
+    globals_read = sorted({n.id for n in ast.walk(pk) if isinstance(n, ast.Name) and isinstance(n.ctx, ast.Load) and n.id not in locals_ and _is_configuration(n.id)})
     ctx.check(not bad_defaults and not reassigned and not globals_read, rule, "Record._pack:exclusion-only-by-argument",
               "Record._pack() called without arguments (as the serialisers do) can drop values: a parameter defaults to / is re-assigned "
               f"from configuration ({bad_defaults or [norm(r) for r in reassigned] or globals_read}); the written value array would no "
